@@ -369,7 +369,7 @@ PARTS = [
     Part("integers-and-values", "enum", check, cases=integer_cases, exhaustive=True),
     Part("serde-and-flags", "enum", check, cases=serde_flag_cases, exhaustive=True),
     Part("random", "hyp", check, strategy=random_strategy,
-         examples={"quick": 600, "thorough": 6000}, shards={"quick": 4, "thorough": 16}),
+         examples={"quick": 600, "thorough": 25000}, shards={"quick": 4, "thorough": 16}),
 ]
 
 
